@@ -28,6 +28,10 @@ def run(ctx):
     res.assumptions = ["observation at the client sockets with the barrier protocol (DESIGN 2.3)",
                        "snapshot hook reads the state under the server's own lock",
                        "reference model of DESIGN 2.4 encodes the statement; unspecified choices are resynchronised, not judged"]
+    # a member whose nickname used to belong to a session that is only now ending stays a member
+    common.run_stuck(ctx, res, sigs=("stuck:claimant-erased", "stuck:claimant-membership-erased", "stuck:claimant-views-disagree",
+                                     "stuck:claimant-inherited-rank", "stuck:bystanders-changed", "stuck:contended-ghost-member",
+                                     "stuck:inv:I1", "stuck:inv:I2", "stuck:inv:I3"))
     return res
 
 
